@@ -11,7 +11,14 @@ def run_unit(u):
     results = []
     for h in u["harnesses"]:
         path = os.path.join(out_dir, h + ".rs")
-        open(path, "w").write(gen_spec.verus_file())
+        try:
+            text = gen_spec.VERUS_FILES[h]()
+        except gen_spec.AnchorLost as e:
+            r = dict(unit=u["id"], harness=h, wall_s=0, failed=[], covers=[], stubs=[], symex_s=None, tail="", verdict="undecided", reason="lost anchor: %s" % e, n_checks=0, n_success=0, n_unreachable=0, solver_s=None)
+            sys.stderr.write("  [%s] %-44s %-9s %s\n" % (u["id"], h, r["verdict"], r["reason"][:140]))
+            results.append(r)
+            continue
+        open(path, "w").write(text)
         t0 = time.time()
         try:
             p = subprocess.run(["verus", path, "--output-json", "--time"], cwd=out_dir, stdout=subprocess.PIPE, stderr=subprocess.PIPE, text=True, timeout=u.get("timeout", 600))
@@ -37,7 +44,7 @@ def run_unit(u):
                 r.update(verdict="pass", reason="")
             else:
                 msgs = re.findall(r"error: (.*)", err)
-                r.update(verdict="fail", reason="; ".join(msgs[:3]) or "verus reported errors", failed=[dict(name=h, desc="L-flags: " + (m), loc="") for m in (msgs[:5] or ["verus error"])], tail=err[-2500:])
+                r.update(verdict="fail", reason="; ".join(msgs[:3]) or "verus reported errors", failed=[dict(name=h, desc=u["id"] + ": " + (m), loc="") for m in (msgs[:5] or ["verus error"])], tail=err[-2500:])
                 r["failed_real"] = r["failed"]
         sys.stderr.write("  [%s] %-44s %-9s %6.1fs %s\n" % (u["id"], h, r["verdict"], wall, r["reason"][:140]))
         results.append(r)
